@@ -1,20 +1,29 @@
 #!/bin/sh
-# seed_matrix.sh [seed dirs...]: apply each kept seeded change in turn to a SCRATCH worktree of /repo's HEAD and run EVERY claimed check
-# (quick tier) against it from a SCRATCH copy of /verif (own build directory), so that /repo and /verif stay usable meanwhile.
+# seed_matrix.sh [seed dirs...]: apply each kept seeded change in turn to a SCRATCH worktree of /repo's HEAD and run the responsible check
+# and the checks of the related properties (ALL=1: every claimed check) - quick tier - against it from a SCRATCH copy of /verif (own build directory), so that /repo and /verif stay usable meanwhile.
 # Output: seeded/matrix.tsv (seed, check, exit code, number of VIOLATION lines, first violation kind).  Scratch copies are removed at the end.
 ROOT=$(cd "$(dirname "$0")/.." && pwd)
 WT=$(mktemp -d /tmp/mxwt.XXXXXX); rmdir $WT
 VC=$(mktemp -d /tmp/mxverif.XXXXXX)
 git -C /repo worktree add -q --detach $WT HEAD || exit 9
-rsync -a --exclude .git --exclude replays --exclude evidence "$ROOT/" "$VC/"; mkdir -p $VC/replays $VC/evidence
+rsync -a --exclude .git --exclude replays --exclude evidence --exclude build "$ROOT/" "$VC/"; mkdir -p $VC/replays $VC/evidence
 export VERIF_REPO=$WT
 ( cd $VC && ./build.sh >/dev/null 2>&1 )
+related() {   # properties whose checks observe the same code paths
+  case $1 in
+    C01) echo C02 C03 C09;; C02) echo C01 C03 C09;; C03) echo C16 C19 C08;; C04) echo C09 C03 C12;; C05) echo C09 C06;;
+    C06) echo C05 C09;; C07) echo C01 C03;; C08) echo C03 C09;; C09) echo C04 C05 C13;; C10) echo C08 C19;; C11) echo C08 C01;;
+    C12) echo C09 C16;; C13) echo C09 C08;; C14) echo C09 C16;; C15) echo C04 C16;; C16) echo C03 C20;; C17) echo C18;;
+    C18) echo C17;; C19) echo C16 C03;; C20) echo C16 C19;;
+  esac; }
 ids=${*:-$(ls $ROOT/seeded | grep '^C')}
 checks=$(python3 -c "import json;print(' '.join(x['property_id'] for x in json.load(open('$ROOT/MANIFEST.json'))['checks']))")
 : > $ROOT/seeded/matrix.tsv.new
 for id in $ids; do
   ( cd $WT && git checkout -q -- . && git clean -fdq && git apply $ROOT/seeded/$id/patch.diff ) || { echo "$id APPLY-FAILED" | tee -a $ROOT/seeded/matrix.tsv.new; continue; }
-  for c in $checks; do
+  prop=$(python3 -c "import json;print(json.load(open('$ROOT/seeded/$id/meta.json'))['property'])")
+  if [ -n "$ALL" ]; then run=$checks; else run="$prop $(related $prop)"; fi
+  for c in $run; do
     out=$(cd $VC && ./check $c --tier quick 2>&1); rc=$?
     nv=$(echo "$out" | grep -c '^VIOLATION')
     rp=$(echo "$out" | grep '^VIOLATION' | head -1 | sed 's/.*replay=//; s/ .*//')
